@@ -69,6 +69,30 @@ def samereal(chk, mpmath, rng, table, tol, n, prop, parts=(), hiprec=0.0):
             yield None
 
 
+def sweep(mpmath, name, call, xs, p, tol, prop):
+    """dense one-dimensional sweep at a fixed precision: SameReal (p against 2p+40) at every grid point, so that a
+    wrong precision-dependent threshold (arguments of size c*p, c*sqrt(p), 2^-k) cannot hide between random samples.
+    xs: exact arguments (Fractions, or tuples of Fractions for several arguments)"""
+    mp = mpmath.mp
+    for x in xs:
+        args = list(x) if isinstance(x, (tuple, list)) else [x]
+        try:
+            mp.prec = p
+            margs = [q2m(mp, a) for a in args]
+            y1 = call(mp, margs)
+            mp.prec = 2 * p + 40
+            y2 = call(mp, margs)
+            mp.prec = p
+            if not (oblcommon.fin(y1) and oblcommon.fin(y2)):
+                yield None; continue
+            yield close(y1, y2, tol, p), {"key": "sweep/" + name + ("/p>=600" if p >= 600 else ""), "f": name, "args": [str(a) for a in args], "p": p,
+                                          "what": "dense sweep: values at precisions p and 2p+40 are not approximations of one number to 2^(%d-p)" % tol}
+        except (ZeroDivisionError, ValueError, TypeError, NotImplementedError, OverflowError, mpmath.libmp.NoConvergence, mpmath.libmp.ComplexResult):
+            yield None
+        finally:
+            mp.prec = 53
+
+
 def A(*gens):
     return lambda rng: [g(rng) for g in gens]
 
